@@ -393,7 +393,7 @@ def _try_refute(o, g, timeout_ms, quick):
                 return True
     except z3.Z3Exception:
         pass
-    for N in ((2,) if quick else (2, 3)):
+    for N in ((1, 2) if quick else (1, 2, 3)):
         try:
             m = bounded_refute(o, N, budget)
         except z3.Z3Exception:
